@@ -22,6 +22,55 @@ def check(ctx):
     ctx.sub(ratios)
     ctx.sub(reporters)
     ctx.sub(aggregation)
+    ctx.sub(hc_months)
+
+
+def _const_range(it):
+    if it is not None and it[0] == 'call' and it[1] == ('ext', 'RANGE') and 1 <= len(it[2]) <= 3 and all(a[0] == 'num' and a[1].denominator == 1 for a in it[2]):
+        return list(range(*[int(a[1]) for a in it[2]]))
+    if it is not None and it[0] in ('list', 'tuple') and all(a[0] == 'num' for a in it[1]):
+        return [a[1] for a in it[1]]
+    return None
+
+
+def hc_months(ctx):
+    """The exported monthly table reports every month of the monthly aggregate: the calendar-month key ranges over 1..12 and the chart column is month - 1."""
+    qn = 'JSONStatistics._calculate_monthly_aggregated_returns_hc'
+    fn = ctx.fn(qn)
+    ps = summarise(ctx, qn, policy=default_policy)
+    rows = []
+    for p in normal(ps):
+        for e in p.flat_events():
+            if e.kind == 'write' and e.how in ('mut:append',) and e.value is not None:
+                for s in T.subterms(e.value):
+                    if s[0] == 'sub' and s[1][0] == 'attr' and s[1][2] in ('loc', 'at') and s[2][0] == 'tuple' and len(s[2][1]) == 2:
+                        rows.append((e, s))
+    if not rows:
+        ctx.undecided('C17.S4', 'the monthly export looks each (year, month) cell up in the monthly aggregate', fn.site())
+        return
+    e, s = rows[0]
+    mterm = s[2][1][1]
+    elems = [x for x in T.subterms(mterm) if x[0] == 'elem']
+    if len(elems) != 1 or _const_range(elems[0][1]) is None:
+        ctx.undecided('C17.S4', 'the month key of the export is computed from one constant range', e.site, fmt(mterm)[:120])
+        return
+    vals = _const_range(elems[0][1])
+    months = []
+    cols = []
+    row = e.value[2][1] if e.value[0] == 'call' and len(e.value[2]) > 1 else None
+    col = row[1][0] if row is not None and row[0] in ('list', 'tuple') and row[1] else None
+    for v in vals:
+        rep = lambda z: ('num', __import__('fractions').Fraction(v)) if z == elems[0] else None
+        mv = T.rat(T.replace(mterm, rep))
+        months.append(mv.const() if mv.is_const() else None)
+        if col is not None:
+            cv = T.rat(T.replace(col, rep))
+            cols.append(cv.const() if cv.is_const() else None)
+    ctx.require(None not in months and sorted(months) == list(range(1, 13)), 'C17.S4', 'the monthly export covers calendar months 1..12 (December included), each once', e.site,
+                'month keys looked up: %s' % [int(m) if m is not None else None for m in months], key='C17.S4|hc-months')
+    if cols and None not in cols and None not in months:
+        ctx.require(all(c == m - 1 for c, m in zip(cols, months)), 'C17.S4', 'chart column = calendar month - 1', e.site,
+                    'columns %s for months %s' % ([int(c) for c in cols], [int(m) for m in months]), key='C17.S4|hc-columns')
 
 
 # ---------------------------------------------------------------------------------------- S1, S2 (drawdowns)
@@ -136,6 +185,49 @@ def drawdowns(ctx):
     if grp or (dur[0] == 'call' and dur[1] == ('ext', 'MAX')):
         okg = dur[0] == 'call' and dur[1] == ('ext', 'MAX') and len(grp) == 1 and ind and grp[0][2] == (ind[0],)
         ctx.require(okg, 'C17.S2', 'duration = the longest consecutive run of the indicator (max over groupby runs)', fn.site(), fmt(dur)[:200], key='C17.S2|duration')
+        # what is measured per run: only under-water observations count (groupby also yields the runs AT the high-water mark)
+        comp = dur[2][0] if okg and dur[2] and dur[2][0][0] == 'comp' and len(dur[2][0][3]) == 1 else None
+        if comp is not None and len(comp[3][0][0]) == 2:
+            (kv, gv), _, oifs = comp[3][0]
+            elt = comp[2]
+            one = num(1)
+
+            def truthy_one(c, var):
+                return c in (('cmp', '==', var, one), ('cmp', '==', one, var), var, ('not', ('cmp', '==', var, ZERO)), ('not', ('cmp', '==', ZERO, var)), ('cmp', '<', ZERO, var))
+
+            def counted(e):
+                # -> 'ones' | 'all' | None
+                if e[0] == 'call' and e[1] == ('ext', 'SUM') and len(e[2]) == 1:
+                    a = e[2][0]
+                    if a == gv:
+                        return 'ones'                      # the flags are 0/1: their sum counts the ones
+                    if a[0] == 'comp' and len(a[3]) == 1 and a[3][0][1] == gv and len(a[3][0][0]) == 1:
+                        iv, fs = a[3][0][0][0], a[3][0][2]
+                        if a[2] == one and len(fs) == 1 and truthy_one(fs[0], iv):
+                            return 'ones'
+                        if a[2] == iv and not fs:
+                            return 'ones'
+                        if a[2] == one and not fs:
+                            return 'all'
+                if e[0] == 'call' and e[1] == ('ext', 'LEN') and len(e[2]) == 1 and e[2][0][0] == 'call' and e[2][0][1] in (('ext', 'LIST'), ('ext', 'TUPLE')) \
+                        and e[2][0][2] == (gv,):
+                    return 'all'
+                return None
+            kind = counted(elt)
+            selects = any(truthy_one(c, kv) for c in oifs)
+            if kind is None:
+                # k * len(list(g)) : the run key is the 0/1 flag itself
+                for cand in (('call', ('ext', 'LEN'), (('call', ('ext', 'LIST'), (gv,), ()),), ()),):
+                    if T.teq(elt, T.t_mul(kv, cand)):
+                        kind, selects = 'all', True
+            if kind == 'ones' or (kind == 'all' and selects):
+                ctx.holds('C17.S2', 'each run is measured by its under-water observations only (runs at the high-water mark count 0)', fn.site())
+            elif kind == 'all':
+                ctx.violation('C17.S2', 'each run is measured by its under-water observations only (runs at the high-water mark count 0)', fn.site(),
+                              'every run is measured by its full length (%s) and runs of the at-high-water flag are not excluded: a long stretch of new highs is reported as drawdown duration'
+                              % fmt(elt)[:100], key='C17.S2|run-measure')
+            else:
+                ctx.undecided('C17.S2', 'the per-run measure is a tabled idiom', fn.site(), fmt(elt)[:160])
     else:
         ctx.undecided('C17.S2', 'the run-length computation of the duration is a tabled idiom', fn.site(), fmt(dur)[:120])
     ctx.sample({'rule': 'C17.S1/S2', 'drawdown': fmt(dd)[:120], 'duration': fmt(dur)[:160]})
